@@ -12,6 +12,7 @@ CONSTANTS
   Record = FALSE
   Defect_NoArmOnSync = TRUE
   Defect_TakeoverKeepsOrigin = FALSE
+  Defect_EchoRemovesFlipped = FALSE
   Defect_ClientSetBeforeOwner = FALSE
 VIEW StateView
 PROPERTIES OwnedExpiredAfterSweep
